@@ -211,8 +211,24 @@ let eval_wire () : string =
       (count (function HLeaveReq _ -> true | _ -> false)) left
       (count (function HCloseRet _ -> true | _ -> false))
 
+let eval_conn (a : string list) : string =
+  match a with
+  | ["dl"; api] ->
+    let c = (match api with
+        | "findCoordinator" -> CFindCoordinator | "joinGroup" -> CJoinGroup | "syncGroup" -> CSyncGroup
+        | "leaveGroup" -> CLeaveGroup | "heartbeat" -> CHeartbeat | "offsetFetch" -> COffsetFetch
+        | "offsetCommit" -> COffsetCommit | "readPartitions" -> CReadPartitions | _ -> failwith api) in
+    (match deadline_of_call c with DTimeout -> "T" | DTimeoutRebalance -> "TR" | DTimeoutSession -> "TS")
+  | "boot" :: ups ->
+    let up = List.map (fun s -> s = "1") ups in
+    let first = (match connect up with Some i -> string_of_int (int_of_nat i) | None -> "-") in
+    let ok = b01 (connect up <> None) in
+    Printf.sprintf "first=%s tried=%d gen=%s leave=%s" first (int_of_nat (dial_attempts up)) ok ok
+  | _ -> "BADCASE"
+
 let eval (op : string) (a : string list) : string =
   match op, a with
+  | "conn", a -> eval_conn a
   | "gen", ops -> eval_gen ops
   | ("e2e" | "e2e-f5" | "e2e-joinerr"), w :: labels -> eval_e2e w labels
   | "wire", ["standby"] -> eval_standby ()
